@@ -3,7 +3,7 @@
    Model: State/StateModel.v (core/state statedb.go, state_object.go, journal.go at content level;
    H = Keccak-256 is a parameter: nothing is assumed about it except where stated). *)
 From AQ Require Import Lib.Bytes State.StateSpec State.StateModel State.StateProofs State.StateRefute
-  State.StateUndoLemmas State.StateRevertProof State.StatePerm State.StateCopy State.StateRoot State.StateFinal.
+  State.StateUndoLemmas State.StateRevertProof State.StatePerm State.StateCopy State.StateRoot State.StateFinal State.StateAbs State.StateAbsProofs.
 From Coq Require Import Permutation.
 Import ListNotations.
 Local Open Scope N_scope.
@@ -61,6 +61,36 @@ Theorem C09_rewind_respects_observables :
     sim H s t -> undo_n n s = Ok s' -> exists t', undo_n n t = Ok t' /\ obs_eq H s' t'.
 Proof. exact rewind_respects_observables. Qed.
 Print Assumptions C09_rewind_respects_observables.
+
+(* abs_simulation (full for histories without Finalise/Commit).  State/StateAbs.v is an independent
+   abstract transition system: accounts are a map address -> (nonce, balance, code hash, code,
+   self-destructed flag, storage map); plus refund counter, logs per tx hash, preimages; Snapshot
+   pushes a COPY of the whole abstract data, RevertToSnapshot restores the copy (and forgets the
+   younger snapshots); the context set by Prepare is not part of a snapshot (the code does not
+   journal it).  No journal, no dirty set, no caches.  The theorem: from any StateDB without live
+   snapshots (inv, 64-bit logSize), for EVERY history of CreateAccount, Add/Sub/SetBalance (incl. the
+   zero-value touch), SetNonce, SetCode, SetState, Suicide, AddLog, AddRefund, AddPreimage, Prepare,
+   nested Snapshot and RevertToSnapshot, the journalled model and the abstract system stay related
+   step by step: the abstract run does not fail, every getter of the model reads what the abstract
+   state holds, the live snapshot ids coincide, and the model can panic next only where the abstract
+   system does (revert to an id that is not live).
+   Boolean premise on the history = the trigger of the known findings: no Finalise / Commit inside
+   it (K1-K6 need Finalise, IntermediateRoot, Commit or Copy to show).  Not covered: the abstract
+   meaning of Finalise/Commit (EIP-161 deletion needs the touched set, which is exactly what K1/K3/K6
+   show the code does not restore); the refuted theorems below are unchanged. *)
+Theorem C09_abs_simulation :
+  forall (H : bytes -> bytes) (s : state) (ops : list op) (s' : state),
+    inv s -> st_revs s = [] -> st_logsize s < two64 ->
+    forallb (fun o => negb (is_fin o)) ops = true -> run H ops s = Ok s' ->
+    exists A', arun H ops (abs_state H s) = Ok A' /\
+      (forall a, account_view H s' a = a_view (as_data A') a) /\ (forall a k, get_state s' a k = a_store (as_data A') a k) /\
+      (forall a, exist s' a = a_exist (as_data A') a) /\ (forall a, is_empty H s' a = a_empty H (as_data A') a) /\
+      get_refund s' = ad_refund (as_data A') /\ (forall th, get_logs s' th = ad_logs (as_data A') th) /\
+      (forall h, aget h (st_preimages s') = ad_pre (as_data A') h) /\
+      map fst (st_revs s') = map fst (as_snaps A') /\
+      (forall o A1, is_fin o = false -> astep H A' o = Ok A1 -> exists s1, step H s' o = Ok s1).
+Proof. exact abs_simulation_obs. Qed.
+Print Assumptions C09_abs_simulation.
 
 (* ------------------------------------------------------------------------------------------ *)
 (* Clause 2 (hidden state), FULL-STRENGTH statement which the code does NOT satisfy:
@@ -275,3 +305,23 @@ Example C09_example_reopen_premises :
   (forall x y, idH x = idH y -> x = y) /\
   (exists s' r, commit idH true ex3 = Ok (s', r)) /\ commit_premises idH true ex3 /\ canon_state ex3.
 Proof. exact (conj (proj1 ex3_reopen_premises) (conj (proj1 (proj2 ex3_reopen_premises)) (conj (proj2 (proj2 ex3_reopen_premises)) ex3_canon))). Qed.
+
+(* non-vacuity of C09_abs_simulation: the nested history of C09_example from ex_state; the abstract
+   run succeeds and shows the reverted inner region gone (refund 0, account 9 absent) and the
+   outer writes present (slot 1 of account 4 = 7, nonce of 4 = 8, account 1 re-created with code) *)
+Example C09_example_abs :
+  let ops := [OSnapshot; OSetState 4 1 7; OSnapshot; OSuicide 1; OCreate 1; OSetCode 1 [x01]; OAddLog 5; OSnapshot;
+              OAddBal 9 0%Z; OAddRefund 3; ORevert 2; OSetNonce 4 8] in
+  inv ex_state /\ st_revs ex_state = [] /\ st_logsize ex_state < two64 /\
+  forallb (fun o => negb (is_fin o)) ops = true /\
+  (exists s', run Lib.Keccak.keccak256 ops ex_state = Ok s') /\
+  match arun Lib.Keccak.keccak256 ops (abs_state Lib.Keccak.keccak256 ex_state) with
+  | Ok A => a_store (as_data A) 4 1 = 7 /\ ad_refund (as_data A) = 0 /\ a_exist (as_data A) 9 = false /\
+            option_map v_nonce (a_view (as_data A) 4) = Some 8 /\ option_map v_code (a_view (as_data A) 1) = Some (Some [x01]) /\
+            map fst (as_snaps A) = [0; 1]
+  | Panic => False
+  end.
+Proof.
+  split; [exact (inv_new_state ex_trie [])|]. split; [reflexivity|]. split; [vm_compute; reflexivity|].
+  split; [reflexivity|]. split; [eexists; vm_compute; reflexivity|]. vm_compute. repeat split.
+Qed.
